@@ -40,6 +40,10 @@ class C15(CheckBase):
             ctx.probe('boundary_runs')
         sess.run_ops()
         s = ctx.s
+        for oid, kind, exname, tb in sess.api_errors:
+            ctx.violation('C15.count', f'api-raised:{kind}:{exname}',
+                          f'operation {oid} ({kind}): the discovery API raised while scheduling the transmissions of a '
+                          f'message (it is not transmitted 1 + repeat times):\n{tb}')
         net = N.NET
         from sdc11073.wsdiscovery import networkingthread as nt
         with s.no_preempt():
